@@ -49,6 +49,7 @@ type Behav struct {
 	Msg     string
 	Cause   string
 	Entered chan struct{} // closed when the handler is entered (if non-nil)
+	Delay   time.Duration // the handler takes this long
 }
 
 // App is the instrumented application code shared by the drivers.
@@ -108,6 +109,9 @@ func (a *App) handle(kind string, sessName string, seq int32, method string, met
 		}
 		if b.Hold != nil {
 			<-b.Hold
+		}
+		if b.Delay > 0 {
+			time.Sleep(b.Delay)
 		}
 		if b.Outcome != "" {
 			outcome = b.Outcome
